@@ -110,6 +110,14 @@ func entries() []entry {
 		_, err := ledger.ExtractTransactionOffsets(b)
 		return err
 	})
+	add("common.ExtractAndSetTransactionCbor", "block:*", -1, 3, func(b []byte) error {
+		nop := func(int, []byte) {}
+		n := 0
+		if len(b) > 1 {
+			n = int(b[1]) % 4
+		}
+		return common.ExtractAndSetTransactionCbor(b, nop, nop, func([]byte) {}, n, n)
+	})
 	add("ledger.DetermineBlockType", "header:*", -1, 2, func(b []byte) error {
 		_, err := ledger.DetermineBlockType(b)
 		return err
